@@ -4,6 +4,7 @@ import AL.Model.Glob
 import AL.Gen.Webhooks
 import AL.Gen.RunnerLabels
 import AL.Model.ExprConv
+import AL.Gen.Popular
 /-
   The rules that need nothing but the AST, as functions of the AST the parser model produces, and the tail of
   `Linter.check` (all diagnostics of the parser and of the rules, stably sorted by position):
@@ -11,7 +12,7 @@ import AL.Model.ExprConv
     rule_matrix.go       (through AL.Matrix)      rule_credentials.go     rule_job_needs.go (through AL.Needs)
     rule_env_var.go      rule_id.go               rule_glob.go (through AL.Glob)
     rule_permissions.go  rule_if_cond.go          rule_shell_name.go      rule_deprecated_commands.go
-    rule_events.go (all but the CRON check)
+    rule_events.go (all but the CRON check)   rule_runner_label.go    rule_action.go / rule_workflow_call.go (no project)
 
   in the order linter.go creates them. The visitor (pass.go) walks `Workflow.Jobs`, a Go map: here the jobs are visited
   in the order of the association list (source order). A rule's state that lives across callbacks is explicit
@@ -601,6 +602,120 @@ def ruleEvents (lower : String → String) (isNum : String → Bool) (w : Workfl
     | .call inputs _ _ _ => checkCallEvent lower isNum (inputs.getD [])
     | _ => []
 
+/-! ### rule_action.go (for a file linted without a project: local actions are not looked up) -/
+
+def indexOfChar (c : Char) : List Char → Nat → Option Nat
+  | [], _ => none
+  | x :: xs, i => if x = c then some i else indexOfChar c xs (i + 1)
+
+def popularEntry (spec : String) : Option (List (String × String × Bool) × Bool) :=
+  match AL.Gen.popularChunks.findSome? (fun ch => ch.find? (·.1 = spec)) with
+  | some (_, ins, _, skipInputs, _) => some (ins, skipInputs)
+  | none => none
+
+/-- `checkAction` for a bundled action: inputs that are not declared (at the input's name), then the required inputs that
+are not supplied, in the order of the sorted ids (all at `uses:`) -/
+def checkActionInputs (spec : String) (declared : List (String × String × Bool)) (e : ExecAction) (usesPos : Pos) : List Diag :=
+  let given := e.inputs.getD []
+  (given.flatMap fun kv =>
+    if declared.any (·.1 = kv.1) then [] else [⟨kv.2.name.pos, "action", "input-undefined", [kv.2.name.value, spec]⟩]) ++
+  ((declared.foldr (fun d acc => AL.PW.insertSorted d.1 acc) []).flatMap fun id =>
+    match declared.find? (·.1 = id) with
+    | some (_, name, true) => if given.any (·.1 = id) then [] else [⟨usesPos, "action", "input-missing", [name, spec]⟩]
+    | _ => [])
+
+/-- `checkRepoAction` -/
+def checkRepoAction (spec : String) (e : ExecAction) (usesPos : Pos) : List Diag :=
+  let s := spec.toList
+  match indexOfChar '@' s 0 with
+  | none => [⟨usesPos, "action", "action-format", [spec, "ref is missing"]⟩]
+  | some at_ =>
+    let ref := s.drop (at_ + 1)
+    let s1 := s.take at_
+    match indexOfChar '/' s1 0 with
+    | none => [⟨usesPos, "action", "action-format", [spec, "owner is missing"]⟩]
+    | some sl =>
+      let owner := s1.take sl
+      let s2 := s1.drop (sl + 1)
+      let repo := match indexOfChar '/' s2 0 with | some i => s2.take i | none => s2
+      let dFmt := if owner.isEmpty || repo.isEmpty || ref.isEmpty then
+        [(⟨usesPos, "action", "action-format", [spec, "owner and repo and ref should not be empty"]⟩ : Diag)] else []
+      dFmt ++
+      (match popularEntry spec with
+       | none => if AL.Gen.outdatedSpecs.contains spec then [⟨usesPos, "action", "action-outdated", [spec]⟩] else []
+       | some (ins, skip) => if skip then [] else checkActionInputs spec ins e usesPos)
+
+/-- `checkDockerAction`; `urlOk` is `url.Parse` succeeding -/
+def checkDockerAction (urlOk : String → Bool) (uri : String) (usesPos : Pos) : List Diag :=
+  let rest := uri.toList.drop 9
+  let (uri', tag, tagExists) : String × String × Bool :=
+    match indexOfChar ':' rest 0 with
+    | some i => (String.ofList (uri.toList.take (9 + i)), String.ofList (uri.toList.drop (9 + i + 1)), true)
+    | none => (uri, "", false)
+  (if urlOk uri' then [] else [⟨usesPos, "action", "docker-uri-invalid", [uri', tag]⟩]) ++
+  (if tagExists && tag = "" then [⟨usesPos, "action", "docker-tag-empty", [uri']⟩] else [])
+
+def actionStep (urlOk : String → Bool) (st : Step) : List Diag :=
+  match st.exec with
+  | .action e =>
+    (match e.uses with
+     | none => []
+     | some u =>
+       if containsExpr u then []
+       else if u.value.startsWith "./" then []
+       else if u.value.startsWith "docker://" then checkDockerAction urlOk u.value u.pos
+       else checkRepoAction u.value e u.pos)
+  | _ => []
+
+def ruleAction (urlOk : String → Bool) (w : Workflow) : List Diag :=
+  (jobsOf w).flatMap fun j => (stepsOf j).flatMap (actionStep urlOk)
+
+/-! ### rule_workflow_call.go (without a project: the format of `uses:` only) -/
+
+/-- `isWorkflowCallUsesLocalFormat` -/
+def isLocalCallFormat (u : String) : Bool :=
+  if !u.startsWith "./" then false
+  else
+    let r := u.toList.drop 2
+    match indexOfChar '@' r 0 with
+    | some i => if i > 0 then false else !r.isEmpty
+    | none => !r.isEmpty
+
+/-- `isWorkflowCallUsesRepoFormat` -/
+def isRepoCallFormat (u : String) : Bool :=
+  if u.startsWith "." then false
+  else
+    let s := u.toList
+    match indexOfChar '/' s 0 with
+    | none => false
+    | some i =>
+      if i = 0 then false
+      else
+        let s1 := s.drop (i + 1)
+        match indexOfChar '/' s1 0 with
+        | none => false
+        | some j =>
+          if j = 0 then false
+          else
+            let s2 := s1.drop (j + 1)
+            match indexOfChar '@' s2 0 with
+            | none => false
+            | some k => if k = 0 then false else !(s2.drop (k + 1)).isEmpty
+
+def workflowCallJob (j : Job) : List Diag :=
+  match j.workflowCall with
+  | none => []
+  | some c =>
+    match c.uses with
+    | none => []
+    | some u =>
+      if u.value = "" || containsExpr u then []
+      else if isLocalCallFormat u.value then []
+      else if isRepoCallFormat u.value then []
+      else [⟨u.pos, "workflow-call", "call-format", [u.value]⟩]
+
+def ruleWorkflowCall (w : Workflow) : List Diag := (jobsOf w).flatMap workflowCallJob
+
 /-! ### the tail of `Linter.check` -/
 
 def less (a b : Diag) : Bool := if a.pos.line = b.pos.line then a.pos.col < b.pos.col else a.pos.line < b.pos.line
@@ -615,13 +730,13 @@ def stableSort (l : List Diag) : List Diag := l.foldl (fun acc x => insertStable
 def ofPErr (e : AL.PW.PErr) : Diag := ⟨e.pos, "syntax-check", e.code, e.args⟩
 
 /-- all diagnostics of the modelled rules, in the order of linter.go's rule list -/
-def rules (lower : String → String) (isNum : String → Bool) (w : Workflow) : List Diag :=
-  ruleMatrix w ++ ruleCredentials w ++ ruleShellName lower w ++ ruleRunnerLabel lower w ++ ruleEvents lower isNum w ++ ruleJobNeeds lower w ++ ruleEnvVar w ++
-  ruleId lower w ++ ruleGlob w ++ rulePermissions w ++ ruleDeprecatedCommands w ++ ruleIfCond w
+def rules (lower : String → String) (isNum urlOk : String → Bool) (w : Workflow) : List Diag :=
+  ruleMatrix w ++ ruleCredentials w ++ ruleShellName lower w ++ ruleRunnerLabel lower w ++ ruleEvents lower isNum w ++ ruleJobNeeds lower w ++
+  ruleAction urlOk w ++ ruleEnvVar w ++ ruleId lower w ++ ruleGlob w ++ rulePermissions w ++ ruleWorkflowCall w ++ ruleDeprecatedCommands w ++ ruleIfCond w
 
 /-- `Linter.check` restricted to the parser and the modelled rules -/
-def lint (cfg : AL.PW.Cfg) (isNum : String → Bool) (doc : Node) : List Diag :=
+def lint (cfg : AL.PW.Cfg) (isNum urlOk : String → Bool) (doc : Node) : List Diag :=
   let r := AL.PW.parse cfg doc
-  stableSort (r.2.map ofPErr ++ rules cfg.lower isNum r.1)
+  stableSort (r.2.map ofPErr ++ rules cfg.lower isNum urlOk r.1)
 
 end AL.Rules
